@@ -519,8 +519,30 @@ impl<'a> ObjectParser<'a> {
         }
     }
 
+    /// READ requests never carry object data, but the time objects with a count qualifier
+    /// can only be parsed together with their data
+    fn check_count_in_read(&self, v: Variation, qualifier: QualifierCode) -> Result<(), ObjectParseError> {
+        if self.function == FunctionCode::Read
+            && matches!(
+                v,
+                Variation::Group50Var1
+                    | Variation::Group50Var2
+                    | Variation::Group50Var3
+                    | Variation::Group50Var4
+                    | Variation::Group51Var1
+                    | Variation::Group51Var2
+                    | Variation::Group52Var1
+                    | Variation::Group52Var2
+            )
+        {
+            return Err(ObjectParseError::InvalidQualifierForVariation(v, qualifier));
+        }
+        Ok(())
+    }
+
     fn parse_count_u8(&mut self, v: Variation) -> Result<ObjectHeader<'a>, ObjectParseError> {
         let count = self.cursor.read_u8()?;
+        self.check_count_in_read(v, QualifierCode::Count8)?;
         let data = CountVariation::parse(v, QualifierCode::Count8, count as u16, &mut self.cursor)?;
         Ok(ObjectHeader::new(
             v,
@@ -530,6 +552,7 @@ impl<'a> ObjectParser<'a> {
 
     fn parse_count_u16(&mut self, v: Variation) -> Result<ObjectHeader<'a>, ObjectParseError> {
         let count = self.cursor.read_u16_le()?;
+        self.check_count_in_read(v, QualifierCode::Count16)?;
         let data = CountVariation::parse(v, QualifierCode::Count16, count, &mut self.cursor)?;
         Ok(ObjectHeader::new(
             v,
